@@ -386,13 +386,13 @@ pub fn subs() -> Vec<Sub<'static>> {
 pub fn run(ctx: &Ctx) {
     let subs = subs();
     ctx.cases(&subs[1], &(0u8..8).map(|k| vec![k]).collect::<Vec<_>>());
-    ctx.search(&subs[0], "values", ctx.n(1_500_000, 20_000_000), 300, &|src: &mut Src| {
+    ctx.search(&subs[0], "values", ctx.n(4_500_000, 36_000_000), 300, &|src: &mut Src| {
         let mut c = vec![src.below(family::N_TYPES) as u8];
         c.extend_from_slice(src.rest());
         c
     });
     let p = DocParams { ws: 1, dup_keys: true, max_depth: 4, max_items: 5, ..DocParams::default() };
-    ctx.search(&subs[2], "dup-keys", ctx.n(300_000, 4_000_000), 400, &move |src: &mut Src| gens::gen_container_doc(src, &p));
+    ctx.search(&subs[2], "dup-keys", ctx.n(900_000, 7_200_000), 400, &move |src: &mut Src| gens::gen_container_doc(src, &p));
     let p = DocParams { ws: 1, dup_keys: false, max_depth: 5, max_items: 6, ..DocParams::default() };
-    ctx.search(&subs[2], "dup-free", ctx.n(300_000, 4_000_000), 500, &move |src: &mut Src| gens::gen_container_doc(src, &p));
+    ctx.search(&subs[2], "dup-free", ctx.n(900_000, 7_200_000), 500, &move |src: &mut Src| gens::gen_container_doc(src, &p));
 }
